@@ -958,7 +958,8 @@ class Engine:
     def str_repeat(self, st, s, n):
         """s * n: exact for n <= 0; for n > 0 an uninterpreted result with length and
         membership facts (len == len(s)*n; every char of result is a char of s when len(s)==1)."""
-        r = fresh(STR, 'rep')
+        # a function of (s, n): the same operands give the same term in code and in a clause
+        r = self.call_ufunc_auto('str_repeat', [s, n], STR)
         nn = z3.If(n.e > 0, n.e, 0)
         st.assume(z3.Length(r.e) == z3.Length(s.e) * nn)
         if z3.is_string_value(s.e) and len(s.e.as_string()) == 1:
